@@ -139,9 +139,11 @@ def run_real(cfg, tree):
     return res
 
 
-def run_dask(cfg, partitions, substreams, scheduler, seed):
+def run_dask(cfg, partitions, substreams, scheduler, seed, recompute=False):
     """End to end: mpu_write over dask bags.  partitions: list of chunk-size lists; substreams:
-    how many consecutive partitions each bag takes.  Returns (tree, result dict)."""
+    how many consecutive partitions each bag takes.  recompute: the same graph is computed twice and the
+    SECOND execution is the one observed (a task graph must not be consumed by its first execution).
+    Returns (tree, result dict)."""
     import dask
     import dask.bag
     from dask import delayed
@@ -190,6 +192,10 @@ def run_dask(cfg, partitions, substreams, scheduler, seed):
         if scheduler == "threads":
             kw["num_workers"] = 4
         rr = fut.compute(**kw)
+        if recompute:
+            del w.log[:], seen[:], merges[:]
+            w.final = None
+            rr = fut.compute(**kw)
         res["out"] = {"final": rr, "log": list(w.log),
                       "obs": [(len(d), i) for part in parts for d, i in part]}
     except Exception as e:  # noqa: BLE001
@@ -360,7 +366,7 @@ def p_tree(cfg, tree):
     return (not bad), "; ".join(f"{k}: {d}" for k, d in bad), [k for k, _ in bad]
 
 
-PREDICATES = {"tree": p_tree}
+PREDICATES = {"tree": p_tree}   # "dask" replays are dispatched in replay()
 
 
 # ------------------------------------------------------------------ run
@@ -391,15 +397,16 @@ def run(out, tier, scratch):
 
     found = {}
 
-    def judge(cfg, tree, r, src):
+    def judge(cfg, tree, r, src, dask_args=None):
         if not in_domain(cfg, tree):
             return
         for key, detail in clauses(cfg, tree, r):
             out.count("violated:" + key)
             if key not in found:
                 found[key] = True
-                out.violation(f"c06:{key}", f"{src}: {detail}",
-                              {"predicate": "tree", "args": [cfg, tree], "observed": detail})
+                rp = ({"predicate": "tree", "args": [cfg, tree], "observed": detail} if dask_args is None else
+                      {"predicate": "dask", "args": dask_args, "observed": detail})
+                out.violation(f"c06:{key}", f"{src}: {detail}", rp)
 
     # corpus first
     for rp in core.corpus(ID):
@@ -459,14 +466,16 @@ def run(out, tier, scratch):
         if rng.random() < 0.5:
             subs = [n]
         sched = "threads" if i % 3 == 0 else "synchronous"
-        tree, r = run_dask(cfg, partitions, subs, sched, i)
-        out.count(f"dask:{sched}")
+        again = i % 4 == 1
+        tree, r = run_dask(cfg, partitions, subs, sched, i, recompute=again)
+        out.count(f"dask:{sched}" + (":computed-twice" if again else ""))
         if tree is None:
             out.oblige("e2e:merge tree reconstruction", "correspondence", False, f"could not rebuild tree {partitions} {subs}")
             continue
         e2e_cases.append(case_end(cfg, tree, r))
         out.case(("e2e", json.dumps(cfg, sort_keys=True), json.dumps(tree)), True)
-        judge(cfg, tree, r, f"dask {sched} case {i}")
+        judge(cfg, tree, r, f"dask {sched} case {i}" + (" (second compute of the same graph)" if again else ""),
+              [cfg, partitions, subs, sched, again])
 
     fails, log = core.coq_eval_failures(["Base.Result", "Model.Mpu", "Model.MpuCases"], "case", "check", cases, scratch,
                                         shard=60, tag="mpu")
@@ -493,12 +502,14 @@ def run(out, tier, scratch):
                 k = srng.randint(1, left)
                 subs.append(k)
                 left -= k
-            tree, r = run_dask(cfg, partitions, subs if i % 2 else [n], "synchronous", i)
+            again = i % 3 == 2
+            tree, r = run_dask(cfg, partitions, subs if i % 2 else [n], "synchronous", i, recompute=again)
             out.count("dask:search")
             flat = {"leaf": partitions[0]}
             for x in partitions[1:]:
                 flat = [flat, {"leaf": x}]
-            judge(cfg, tree if tree is not None else flat, r, f"dask search case {i}")
+            judge(cfg, tree if tree is not None else flat, r, f"dask search case {i}",
+                  [cfg, partitions, subs if i % 2 else [n], "synchronous", again])
             if found:
                 break
     # when the model and the code disagree, shrink towards a property violation on the implementation
@@ -508,7 +519,21 @@ def run(out, tier, scratch):
             judge(cfg, tree, r, "disagreeing case")
 
 
+def p_dask(cfg, partitions, subs, sched, again):
+    tree, r = run_dask(cfg, partitions, subs, sched, 0, recompute=again)
+    if tree is None:
+        tree = {"leaf": partitions[0]}
+        for x in partitions[1:]:
+            tree = [tree, {"leaf": x}]
+    bad = clauses(cfg, tree, r)
+    return (not bad), "; ".join(f"{k}: {d}" for k, d in bad), [k for k, _ in bad]
+
+
 def replay(rp) -> int:
+    if rp.get("predicate") == "dask":
+        ok, detail, _ = p_dask(*rp["args"])
+        print(f"replay mpu_write through dask {json.dumps(rp['args'])}: {'holds' if ok else 'FAILS: ' + detail}")
+        return 0 if ok else 1
     cfg, tree = rp["args"]
     ok, detail, _ = p_tree(cfg, tree)
     print(f"replay mpu tree {json.dumps(rp['args'])}: {'holds' if ok else 'FAILS: ' + detail}")
